@@ -37,14 +37,10 @@ spec fn ranges_within(r: Seq<Range<usize>>, b: int) -> bool {
     forall|i: int| 0 <= i < r.len() ==> (#[trigger] r[i]).end <= b
 }
 
-/// Contract of D-d `line_diff`: exactly the postcondition PROVED in group diffranges (for any
-/// sequence of diff ops); assumed here because single-file Verus cannot share it. Keep in sync.
-#[verifier::external_body]
-fn line_diff(old: &str, new: &str) -> (r: Vec<Range<usize>>)
-    ensures
-        ranges_wf(r@), // [Dd.post.ranges_wf]
-        ranges_within(r@, line_bound(new)), // [Dd.post.ranges_within_line]
-{ unimplemented!() }
+/// Contract of D-d `line_diff`: pulled mechanically (//@stubof) from group diffranges, where it is
+/// PROVED on the real text for any sequence of diff ops.
+//@stubof group=diffranges unit=Dd
+
 
 //@unit id=Db.fold file=src/diff_parser.rs fn=fold_deleted_lines
 //@contract
